@@ -138,19 +138,23 @@ def build_classes():
 
         # ---- driving ---------------------------------------------------
         def know(self, other, npdu_len=None):
-            """what an I-Am from `other` would teach this stack"""
+            """teach this stack about `other` the way an application does on an
+            I-Am: DeviceInfoCache.iam_device_info(IAmRequest).  Returns the record
+            (None on a tree whose cache does not store new records)."""
+            from bacpypes.apdu import IAmRequest
+            iam = IAmRequest(iAmDeviceIdentifier=("device", other.devid),
+                             maxAPDULengthAccepted=other.device.maxApduLengthAccepted,
+                             segmentationSupported=other.device.segmentationSupported,
+                             vendorID=999)
+            iam.pduSource = other.address
+            self.app.deviceInfoCache.iam_device_info(iam)
             info = self.app.deviceInfoCache.get_device_info(other.address)
-            if info is None:
-                from bacpypes.app import DeviceInfo
-                info = DeviceInfo(other.devid, other.address)
-                self.app.deviceInfoCache.cache[other.address] = info
-                self.app.deviceInfoCache.cache[other.devid] = info
-            info.maxApduLengthAccepted = other.device.maxApduLengthAccepted
-            info.segmentationSupported = other.device.segmentationSupported
-            info.maxSegmentsAccepted = other.device.maxSegmentsAccepted
-            info.vendorID = 999
-            if npdu_len is not None:
-                info.maxNpduLength = npdu_len
+            if info is not None:
+                # not carried by an I-Am; an application that read the property would set it
+                if other.device.maxSegmentsAccepted is not None:
+                    info.maxSegmentsAccepted = other.device.maxSegmentsAccepted
+                if npdu_len is not None:
+                    info.maxNpduLength = npdu_len
             return info
 
         def make_cpt(self, other, payload, invoke=None):
